@@ -341,6 +341,10 @@ Inv_C30_Answers ==
       [] Last.a = "GetFromEpoch" ->
             /\ (\E p \in LiveOf(Last.in.k) : p.e = Last.in.e /\ p.e \in mapped) => Last.out.ok
             /\ (RemovedEverywhere(Last.in.k) /\ Last.in.e \in OpenActiveSet) => ~Last.out.ok
+      [] Last.a = "GetBulkFromEpoch" ->
+            \A k \in Last.in.ks :
+                (\E p \in LiveOf(k) : p.e = Last.in.e /\ p.e \in mapped)
+                    => Last.out.ok /\ \E r \in Last.out.kv : r.k = k
       [] Last.a = "Remove" -> Last.out.ok => Last.in.k \notin DOMAIN cache    \* a removed key leaves the cache too
       [] OTHER -> TRUE
 
